@@ -879,6 +879,21 @@ private:
       {
         try { c.listenerReady->set_value(false); } catch (...) {}
       }
+      if (c.t == CmdType::Connect || c.t == CmdType::Via)
+      {
+        // connect()/connectViaListener() already returned ok(sid) for this command (pushed
+        // after the process() above, before the queue closed). Report the terminal event
+        // so every id handed out gets exactly one onClose. The queue is closed here, so a
+        // connect() from inside this callback is rejected instead of being queued.
+        decltype(_cbs.onClose) closeCb;
+        { std::lock_guard<std::mutex> g(_cbMutex); closeCb = _cbs.onClose; }
+        if (closeCb)
+        {
+          closeCb(c.t == CmdType::Connect ? c.c.sid : c.v.sid,
+                  TransportErrorInfo{TransportError::ShuttingDown,
+                                     "connect: transport shutting down"});
+        }
+      }
     }
     if (_epollFd >= 0)
     {
